@@ -422,11 +422,29 @@ Definition all_ufields (e : entity) : list ufield :=
   ++ flat_map s_fields (e_summaries e).
 Definition fields_ok (e : entity) : bool := forallb ufield_ok (all_ufields e).
 
+(* visitServiceMethodNode: every ":name" part of the resolved path must be a request property *)
+Definition params_ok (req : list bytes) (resolved : bytes) : bool :=
+  forallb (fun p => existsb (bytes_eqb p) req) (path_params resolved).
+Definition query_params_ok (e : entity) : bool :=
+  let base := [47] ++ base_url e ++ bs "/q" in
+  params_ok (map uf_name (get_keys e)) (path_join base (join [47] (key_path (get_keys e))))
+  && params_ok (map uf_name (list_keys e) ++ [bs "page"; bs "query"])
+               (path_join base (join [47] (key_path (list_keys e))))
+  && params_ok (map uf_name (get_keys e) ++ [bs "page"; bs "query"])
+               (path_join base (join [47] (key_path (get_keys e) ++ [bs "events"]))).
+Definition command_params_ok (e : entity) : bool :=
+  forallb (fun c => forallb (fun m => params_ok (map uf_name (md_request m))
+                                                (path_join (command_base e c) (md_path m)))
+                            (c_methods c)) (e_commands e).
+
 (* the compile outcome as far as the expansion decides it *)
 Definition compile (e : entity) : outcome (list component) :=
   match expand e with
   | Ok cs => if closed cs then
-               if fields_ok e then Ok cs else Err "cannot be both required and optional"
+               if fields_ok e then
+                 if query_params_ok e && command_params_ok e then Ok cs
+                 else Err "missing field in request"
+               else Err "cannot be both required and optional"
              else Err "type not found"
   | o => o
   end.
